@@ -235,6 +235,10 @@ def regen_file(ctx, gen, translate_fn):
     pinned source: it is what Gen.v falls back to when the current source is outside the translator's
     subset (a previous run on another tree may have left a different Gen.v behind)."""
     rel = os.path.relpath(gen, vlib.COQ)
+    if os.path.realpath(vlib.REPO) != "/repo" and os.path.exists(gen + ".snapshot"):
+        # a run against another tree (VERIF_REPO, mutation tests) must not leave its model in the committed file
+        import atexit
+        atexit.register(_restore_snapshot, gen)
     try:
         text = translate_fn(vlib.REPO)
     except Untranslatable as e:
@@ -249,6 +253,14 @@ def regen_file(ctx, gen, translate_fn):
         ctx.translator(rel, py2coq.write_if_changed(gen, text))
     fresh_vo(gen)
     return True
+
+
+def _restore_snapshot(gen):
+    try:
+        with vlib.CoqLock():
+            py2coq.write_if_changed(gen, open(gen + ".snapshot").read())
+    except OSError:
+        pass
 
 
 def fresh_vo(gen):
